@@ -111,6 +111,12 @@ def main():
     os.makedirs(BUILD, exist_ok=True)
     ev = {'property_id': prop, 'tier': tier, 'seed': seed, 'level': 'proof', 'violations': 0}
     broken = []            # (kind, detail)
+    # ---- 0. one builder at a time: the Coq tree is shared by every check of this directory.  The translate + (clean) + build
+    # phase holds an exclusive lock; the rest of the run (Print Assumptions, case files compiled against the .vo files) holds a
+    # shared one, so a concurrent thorough run (which rebuilds from clean) waits until the runs that read the tree are done.
+    import fcntl
+    lockf = open(os.path.join(BUILD, 'tree.lock'), 'w')
+    fcntl.flock(lockf, fcntl.LOCK_EX)
     # ---- 1. translator
     rc, tout, changed = translate()
     ev_tr = {'output': tout, 'regenerated_files_changed': changed}
@@ -131,6 +137,9 @@ def main():
         return any(os.path.getmtime(os.path.join(COQ, f)) > os.path.getmtime(vo_)
                    for f in closure(v) if os.path.exists(os.path.join(COQ, f)))
     stale = any(is_stale(v) for v in [vfile] + list(getattr(mod, 'COQ_PROPS_EXTRA', [])))
+    fcntl.flock(lockf, fcntl.LOCK_SH)        # downgrade: readers may run together, the next (re)build waits for them
+    if stale:                                  # another run rebuilt from clean between our build and the downgrade: look again
+        time.sleep(1); stale = any(is_stale(v) for v in [vfile] + list(getattr(mod, 'COQ_PROPS_EXTRA', [])))
     failed_files = re.findall(r'File "\./([^"]+)", line (\d+)[^\n]*\n((?:.*\n){0,6})', bout)
     if stale:
         mine = [(f, l, msg) for f, l, msg in failed_files if f in files]
